@@ -85,9 +85,9 @@ MATCHERS = {"nested_pyequal_value_kept": _pyequal_kept, "reflist_alt_text_repars
 # Random inputs beyond the bound of the design model (C->S).  Only inputs are produced here; every
 # judgement is made by TLC through the same trace specification.
 TYPES = ["Text", "Int", "Numeric", "Bool", "Date", "Choice", "ChoiceList", "Any", "Ref:U", "RefList:U",
-         "Ref:V", "RefList:V", "DateTime:UTC", "Attachments"]
+         "Ref:V", "RefList:V", "DateTime:UTC", "DateTime:America/New_York", "DateTime:Asia/Tokyo", "Attachments"]
 VALUES = [0, 1, 2, 3, 5, -1, 2 ** 31, 2 ** 53 + 1, 10 ** 20, 1.0, 1.5, -0.5, 1e300, 1704067200, 1704067200.5,
-          "", "a", "1", "1.5", "true", "No", "2024-01-01", "2024-01-01T10:00:00", "[1]", "[1, 2]", '["a"]', "[]",
+          "", "a", "1", "1.5", "true", "No", "2024-01-01", "2024-01-01T10:00:00", "2024-06-15 08:00:00", "[1]", "[1, 2]", '["a"]', "[]",
           "[0]", "[1", "a,b", " 1 ", "u1", None, True, False,
           ["L"], ["L", 1], ["L", 1, 2], ["L", 2, 2], ["L", True], ["L", "a", "b"], ["L", 1, "a"], ["L", 0],
           ["L", 1.0], ["L", None], ["L", ["L", 1]], ["L", 7], ["d", 1704067200], ["D", 1704067200, "UTC"],
@@ -114,6 +114,12 @@ def random_inputs(seed, count):
     pool = rng.sample(VALUES, rng.choice((2, 4, 8, len(VALUES))))
     cells = ["j:" + json.dumps(rng.choice(pool)) for _r in range(n)]
     out.append({"from": frm, "to": to, "two": two, "vis": vis, "raw": raw, "cells": cells, "rnd": True})
+  # the same texts converted to DateTime under three zones, one after the other in one engine process
+  # (TypeChange!Anchor pins their meaning)
+  iso = ["j:" + json.dumps(x) for x in ("2024-01-01T10:00:00", "2024-06-15 08:00:00", "2024-01-01", "true", "1.5", "1")]
+  for frm in ("Text", "Any"):
+    for to in ("DateTime:UTC", "DateTime:America/New_York", "DateTime:Asia/Tokyo", "Date", "Int", "Numeric", "Bool"):
+      out.append({"from": frm, "to": to, "two": False, "vis": False, "raw": False, "cells": list(iso), "rnd": True})
   return out
 
 
